@@ -129,7 +129,7 @@ func findModeCheck(c *Ctx, open *ssa.Function) (*ssa.Call, *ssa.Function) {
 			}
 			if cc := callOf(in); cc != nil && cc.StaticCallee() != nil {
 				switch cc.StaticCallee().String() {
-				case "io/ioutil.ReadDir", "os.ReadDir":
+				case "io/ioutil.ReadDir", "os.ReadDir", "os.Stat", "os.Lstat", "path/filepath.Glob", "github.com/xujiajun/utils/filesystem.PathIsExist":
 					lists = true
 				}
 			}
@@ -142,7 +142,7 @@ func findModeCheck(c *Ctx, open *ssa.Function) (*ssa.Call, *ssa.Function) {
 		}
 	})
 	if site == nil {
-		fail("mode check not found: Open calls no function that lists the directory and reads Options.EntryIdxMode")
+		fail("mode check not found: Open calls no function that inspects the directory and reads Options.EntryIdxMode")
 	}
 	return site, callee
 }
@@ -255,6 +255,24 @@ func ruleModeTable(c *Ctx) {
 					}
 				}
 			}
+		}
+	}
+	if dataAtom == nil {
+		// a recognisably wrong derivation: probing one fixed segment id. Segment ids only grow and Merge
+		// removes the low ones, so "segment k exists" does not mean "the directory holds data".
+		fixed := false
+		calls(check, func(ci ssa.CallInstruction) {
+			cc := ci.Common()
+			if calleeIs(cc, modPath, "DB", "getDataPath") {
+				if _, ok := constInt(cc.Args[len(cc.Args)-1]); ok {
+					fixed = true
+					c.bad(fnName(check), "data presence is derived from every directory entry", c.P.ipos(ci),
+						"the mode check decides whether the directory holds data by probing one fixed segment id: after Merge (which removes the low-numbered segments) a populated directory looks empty and is opened, and modified, in an incompatible index mode")
+				}
+			}
+		})
+		if fixed {
+			return
 		}
 	}
 	if dataAtom == nil || bptAtom == nil {
